@@ -382,6 +382,10 @@ func C12(tier string) int {
 					}()
 				}
 				enumChoices(j.n, j.v, j.choices, func(ch [][]int) {
+					if time.Now().After(deadline) {
+						skipped++
+						return
+					}
 					cnt++
 					batch = append(batch, copyChoices(ch))
 					if len(batch) == 256 {
